@@ -46,7 +46,12 @@ def make_env(nbars, L, d, space, extras, late=False):
         # every quote of contract A is followed by a REVISION carrying the identical stamp (added to the transmitter later):
         # "the last quote stamped <= t + latency" is then the revision - equal stamps keep their insertion order
         evs = evs + [EventNBBO(e.time, e.contract, e.bid_price + 0.5, e.ask_price + 0.75) for e in bars + ex if e.contract is A]
-    tr = Transmitter(list(G))
+    if late == "markov":
+        # markov reset into a fold that starts at the SECOND timestep: nothing before the episode's first timestep is replayed, and the
+        # first timestep's own events (latent ones first) are delivered at reset - the first execution is priced like any other
+        tr = Transmitter(list(G), folds={"training-set": [G[1], G[-1]]}, markov_reset=True)
+    else:
+        tr = Transmitter(list(G))
     tr.add_events(list(evs))
     sink = []
     rec = Rec(sink)
@@ -62,6 +67,8 @@ def make_env(nbars, L, d, space, extras, late=False):
         # price-free events handed to the transmitter AFTER the environment was built (public API); whether they are
         # delivered is not C08's subject, but the executions must still follow the configured latency
         tr.add_events([Custom(G[1] + timedelta(seconds=1), 0), Custom(G[2] + timedelta(seconds=L + 1), 1)])
+    if late == "markov":
+        G = G[1:]
     return env, sink, evs, G
 
 
@@ -173,6 +180,12 @@ def units(tier):
         for extras in [[]] + [[i] for i in range(npos)]:
             for d, space in ((0, "box"), (1, "disc1")):
                 out.append((nbars, L, d, space, extras, "shared"))
+    # markov reset into a later fold: the first batch of the episode is delivered at reset, latent events first
+    for L in (30, 4.1):
+        npos = len(extra_positions(grid(nbars), L))
+        for extras in [[]] + [[i] for i in range(npos)]:
+            for d, space in ((0, "box"), (1, "disc1")):
+                out.append((nbars, L, d, space, extras, "markov"))
     # revised quotes (same stamp, inserted later) on a stream long enough (24+ events) for any unstable ordering to show
     for L in (0, 30, 4.1):
         npos = len(extra_positions(grid(8), L))
@@ -196,7 +209,7 @@ def _work(chunk):
             out["violations"].append(({"nbars": nbars, "L": L, "d": d, "space": space, "extras": extras, "seq": [], "late": late},
                                       "building the environment raised %r" % (ex,), ("build", space, d)))
             continue
-        for si, seq in enumerate(itertools.product(range(3), repeat=nbars - 1)):
+        for si, seq in enumerate(itertools.product(range(3), repeat=len(G) - 1)):
             msgs = run_sequence(env, sink, evs, G, L, d, space, seq)
             out["evaluations"] += 1
             tr = env.broker.track_record
@@ -235,7 +248,7 @@ def run(tier, **kw):
     rep.set("rule", "one evaluation = one complete episode; enumerated: 5-bar stream (2 contracts, every bar a distinct price, spread 2) x latency "
                     "{0, 30s, 4.1s, 8.2s, 0.1s} x every subset of <= 1 (quick) / <= 2 (thorough) extra quotes over {t+1s, t+L, t+L+0.4s, t'-1s} of every consecutive "
                     "pair x delay {0,1,2,3} x {Box, Discrete with zero first allocation, Discrete with non-zero first allocation, Discrete whose flat allocation is not action 0} x all 3^4 "
-                    "action sequences over 3 pairwise-distinct actions, plus the latency > 0 configurations with price-free events added to the transmitter after the environment was built, configurations in which every quote of one contract is followed by a revision with the identical stamp (8 bars, 24+ events), and configurations whose transmitter was first used to build an environment with another latency (same environment reused across sequences via reset); non-trivial = "
+                    "action sequences over 3 pairwise-distinct actions, plus the latency > 0 configurations with price-free events added to the transmitter after the environment was built, configurations in which every quote of one contract is followed by a revision with the identical stamp (8 bars, 24+ events), and configurations under markov reset into a fold starting at the second timestep, and configurations whose transmitter was first used to build an environment with another latency (same environment reused across sequences via reset); non-trivial = "
                     "distinct (allocations executed, trade prices) outcome with delay > 0 or an extra quote")
     rep.set("samples", [{"nbars": 5, "L": 30, "d": 2, "space": "disc1", "extras": [1], "seq": [0, 2, 1, 1]}])
     rep.assumptions = ["with delay > 0 the null action belongs to the space (Box bounds include 0)",
